@@ -61,6 +61,8 @@ class Gen:
         self.p_bad = r.choice([0.0, 0.05, 0.15, 0.25]) if oracle.prop == 'C09' else r.choice([0.0, 0.0, 0.03, 0.08])
         self.p_inplace = r.choice([0.3, 0.6, 0.9])
         self.max_len = r.choice([4, 6, 8, 12])
+        # a few runs work on texts longer than 256 characters (indices beyond the small-int range)
+        self.long_text = r.random() < 0.03
         # settings atoms for this run: a few that share effect groups, plus optional exotic classes
         sets = r.sample(GROUP_SHARING_SETS, r.choice([1, 2, 2, 3]))
         pick = []
@@ -191,6 +193,8 @@ class Gen:
         for cp in cps:
             c.extend([cp - 1, cp, cp + 1])
         c.extend([0, n, n - 1, 1])
+        if n > 256:
+            c.extend([257, 258, n - 2, 256, r.randint(257, n)])
         x = r.random()
         if x < 0.55 and c:
             v = r.choice(c)
@@ -292,6 +296,9 @@ class Gen:
     def g_new(self, world):
         r = self.rng
         txt = self.text(0 if r.random() < 0.1 else 1)
+        if self.long_text and r.random() < 0.5:
+            unit = self.text(2, 6) or 'ab'
+            txt = (unit * (300 // len(unit) + 1))[:r.randint(258, 300)]
         st = self.settings() if r.random() < 0.7 else None
         op = {'op': 'new', 'cls': A if r.random() < self.p_astr else S, 'text': txt, 'st': st, 'd': self.slot()}
         if st is not None and not isinstance(st, str) and r.random() < 0.5:
@@ -537,6 +544,18 @@ class Gen:
         r = self.rng
         s = self.recv_slot(world, maxlen=24)
         old = self.pattern(world.obs[s])
+        if r.random() < 0.1:
+            # the receiver itself as the replacement, for a pattern that occurs several times
+            small = [i for i in self.slots_of(world, (S, A), nonempty=True) if len(world.obs[i].text) <= 8]
+            if small:
+                s = r.choice(small)
+                t = world.obs[s].text
+                rep = [ch for ch in set(t) if t.count(ch) >= 2]
+                old = r.choice(sorted(rep)) if rep else (t[0] if t else 'a')
+                op = {'op': 'replace', 'r': s, 'd': self.slot(), 'ip': self.ip(), 'old': old, 'new': {'slot': s}}
+                if r.random() < 0.3:
+                    op['count'] = r.choice([-1, 2, 3])
+                return op
         if not old or (self.oracle.prop != 'C09' and old == ''):
             old = 'a'
         if self.oracle.prop == 'C09' and r.random() < 0.08:
